@@ -12,7 +12,9 @@ import re
 from mc.common import Result, h64
 from mc import fp
 
-from pypika_tortoise.terms import Interval
+from pypika_tortoise import CustomFunction, Field, Table
+from pypika_tortoise import functions as FN
+from pypika_tortoise.terms import Case, Function, Interval
 
 PROPERTY = "C18"
 
@@ -70,14 +72,59 @@ def expected(comp):
     return sign, unit, [abs(v) for v in comp[lo:hi + 1]]
 
 
+def all_contexts():
+    """the six dialect classes' contexts + one context per member of the Dialects enum (every template and the default)"""
+    from pypika_tortoise.context import DEFAULT_SQL_CONTEXT
+    from pypika_tortoise.enums import Dialects
+
+    C = {d: (ctx, FORM[d]) for d, ctx in fp.CTX.items()}
+    for m in Dialects:
+        C["enum:" + m.name] = (DEFAULT_SQL_CONTEXT.copy(dialect=m), "out" if m.name in ("ORACLE", "MYSQL") else "in")
+    return C
+
+
+_CTXS = None
+
+# where an Interval can sit inside a larger expression / statement: the literal must keep the dialect's form there
+EMBED = {
+    "arith": lambda iv: Field("d") + iv,
+    "arith_r": lambda iv: (Field("d") - iv) * 1,
+    "func": lambda iv: Function("DATE_ADD", Field("d"), iv),
+    "func_nested": lambda iv: FN.Coalesce(Function("DATE_ADD", Field("d"), iv), Field("e")),
+    "custom_fn": lambda iv: CustomFunction("ADDI", ["a", "b"])(Field("d"), iv),
+    "case_then": lambda iv: Case().when(Field("d") == 1, Field("e") + iv).else_(Field("e")),
+    "cmp": lambda iv: Field("d") > (Field("e") - iv),
+    "between": lambda iv: Field("d").between(Field("e") - iv, Field("e") + iv),
+    "isin": lambda iv: Field("d").isin([Field("e") + iv, Field("e")]),
+    "agg": lambda iv: FN.Max(Field("d") + iv),
+    "not": lambda iv: (Field("d") > (Field("e") - iv)).negate(),
+}
+STMT_EMBED = {
+    "select": lambda Q, iv: Q.from_(Table("t")).select(Table("t").d + iv),
+    "select_fn": lambda Q, iv: Q.from_(Table("t")).select(Function("DATE_ADD", Table("t").d, iv)),
+    "where": lambda Q, iv: Q.from_(Table("t")).select("a").where(Table("t").d > Function("DATE_SUB", Table("t").e, iv)),
+    "subquery": lambda Q, iv: Q.from_(Q.from_(Table("t")).select((Table("t").d + iv).as_("x"))).select("x"),
+    "set": lambda Q, iv: Q.update(Table("t")).set("d", Table("t").d + iv),
+    "insert": lambda Q, iv: Q.into(Table("t")).insert(1, Function("NOW") + iv),
+}
+EMBED_IVS = [dict(days=1), dict(days=10, minutes=5), dict(hours=36), dict(years=1, months=2), dict(seconds=1, microseconds=5),
+             dict(days=-3), dict(weeks=2), dict(quarters=1), dict(days=1, hours=2, minutes=3, seconds=4)]
+
+
 def chunks(tier, seed):
     dom = DOM[tier]
     out = [{"kind": "ymd", "y": y, "m": m, "tier": tier} for y in dom for m in dom]
     out.append({"kind": "qw", "tier": tier})
+    out.append({"kind": "embed", "tier": tier})
     return out
 
 
 def expand(chunk):
+    if chunk["kind"] == "embed":
+        for i in range(len(EMBED_IVS)):
+            for pos in list(EMBED) + ["stmt:" + k for k in STMT_EMBED]:
+                yield {"k": "embed", "iv": i, "pos": pos}
+        return
     if chunk["kind"] == "qw":
         for v in [1, 10, 100, 101, -3, -10, 7]:
             yield {"k": "quarters", "v": v}
@@ -96,8 +143,57 @@ def _cls(v):
     return "0" if v == 0 else ("d0" if v % 10 == 0 else "d")
 
 
+EXTRACT = {"in": re.compile(r"INTERVAL '[^']*'"), "out": re.compile(r"INTERVAL '[^']*'(?: [A-Z_]+)?")}
+
+
+def run_embed(case, res):
+    global _CTXS
+    if _CTXS is None:
+        _CTXS = all_contexts()
+    kw = EMBED_IVS[case["iv"]]
+    pos = case["pos"]
+    # what the bare literal reads as (reference: the component model)
+    if "weeks" in kw or "quarters" in kw:
+        k, v = next(iter(kw.items()))
+        exp = (1, "QUARTER" if k == "quarters" else "WEEK", [v])
+    else:
+        comp = [kw.get(u, 0) for u in ("years", "months", "days", "hours", "minutes", "seconds", "microseconds")]
+        exp = expected(comp)
+    res.nontrivial = 1
+    res.states.append(h64(repr((sorted(kw.items()), pos))))
+    for name, (ctx, form) in _CTXS.items():
+        if pos.startswith("stmt:"):
+            if name.startswith("enum:"):
+                continue
+            Q = fp.QCLS[name]
+            try:
+                text = STMT_EMBED[pos[5:]](Q, Interval(**kw)).get_sql(Q.SQL_CONTEXT)
+            except Exception as e:
+                text = "!" + type(e).__name__
+        else:
+            try:
+                text = EMBED[pos](Interval(**kw)).get_sql(ctx)
+            except Exception as e:
+                text = "!" + type(e).__name__
+        res.transitions += 1
+        res.outcomes.append(h64(text))
+        lits = EXTRACT[form].findall(text)
+        n_want = 2 if pos == "between" else 1
+        reads = [ref_read(l, form) for l in lits]
+        if len(lits) != n_want or any(r != exp for r in reads):
+            res.violate("C18|embedded|%s|%s" % (form, pos.split(":")[0] if pos.startswith("stmt") else pos),
+                        "an interval inside a larger expression / statement is not rendered in the target dialect's form with the requested components",
+                        context=name, position=pos, components=kw, rendered=text, literals=lits, read_back=reads, expected=exp)
+
+
 def run_case(case):
     res = Result()
+    if case["k"] == "embed":
+        run_embed(case, res)
+        return res
+    global _CTXS
+    if _CTXS is None:
+        _CTXS = all_contexts()
     res.nontrivial = 1
     if case["k"] in ("quarters", "weeks"):
         v = case["v"]
@@ -111,17 +207,18 @@ def run_case(case):
             comp[i] = -comp[i]
         iv = Interval(*comp)
         exp = expected(comp)
-    for d, ctx in fp.CTX.items():
+    for d, (ctx, form) in _CTXS.items():
         res.transitions += 1
         try:
             text = iv.get_sql(ctx)
         except Exception as e:
             text = "!" + type(e).__name__
         res.outcomes.append(h64(text))
-        got = ref_read(text, FORM[d])
+        got = ref_read(text, form)
         if got != exp:
             pat = ",".join(_cls(v) for v in comp) if comp is not None else case["k"]
-            res.violate("C18|%s|%s|%s" % (FORM[d], "neg" if exp[0] < 0 else "pos", pat),
+            res.violate("C18|%s|%s|%s" % (form if not d.startswith("enum:") or d in ("enum:ORACLE", "enum:MYSQL", "enum:POSTGRESQL", "enum:SQLITE", "enum:MSSQL") else form + ":" + d[5:].lower(),
+                                          "neg" if exp[0] < 0 else "pos", pat),
                         "interval literal does not denote the requested components",
                         dialect=d, components=comp if comp is not None else {case["k"]: case["v"]}, rendered=text,
                         read_back=got, expected=exp)
